@@ -117,6 +117,60 @@ func parseSignedInt64(bytes []byte) (r int64, e error) {
 	return r, e
 }
 
+// identifierOf returns the identifier the encoder writes for a value of v's type: whether the encoding
+// is constructed and its universal tag number. ok is false for the types that have no identifier of
+// their own (an untagged CHOICE, the "Value"/"List" wrappers, pointers).
+func identifierOf(v reflect.Value, params fieldParameters) (constructed bool, tagNumber uint64, ok bool) {
+	switch v.Type() {
+	case BitStringType:
+		return false, TagBitString, true
+	case OctetStringType:
+		return false, TagOctetString, true
+	case EnumeratedType:
+		return false, TagEnumerated, true
+	case NullType:
+		return false, TagNull, true
+	case ObjectIdentifierType:
+		return false, 0, false
+	}
+	switch v.Kind() {
+	case reflect.Bool:
+		return false, TagBoolean, true
+	case reflect.Int, reflect.Int32, reflect.Int64:
+		return false, TagInteger, true
+	case reflect.String:
+		if params.stringType != 0 {
+			return false, uint64(params.stringType), true
+		}
+		switch v.Type() {
+		case UTF8StringType:
+			return false, TagUTF8String, true
+		case IA5StringType:
+			return false, TagIA5String, true
+		case GraphicStringType:
+			return false, TagGraphicString, true
+		}
+		return false, 0, true
+	case reflect.Struct:
+		if v.NumField() > 0 {
+			switch v.Type().Field(0).Name {
+			case "Value", "List":
+				return false, 0, false
+			case "Present":
+				// a tagged CHOICE sits in a constructed context-tagged element
+				return true, 0, params.tagNumber != nil
+			}
+		}
+		fallthrough
+	case reflect.Slice:
+		if params.set {
+			return true, TagSet, true
+		}
+		return true, TagSequence, true
+	}
+	return false, 0, false
+}
+
 // ParseField is the main parsing function. Given a byte slice containing type value,
 // it will try to parse a suitable ASN.1 value out and store it
 // in the given Value. TODO : ObjectIdenfier
@@ -142,9 +196,27 @@ func ParseField(v reflect.Value, bytes []byte, params fieldParameters) error {
 	// one. A tagged CHOICE is unwrapped by the CHOICE case below.
 	if params.tagNumber != nil && params.explicitTag &&
 		!(v.Kind() == reflect.Struct && fieldType.NumField() > 0 && fieldType.Field(0).Name == "Present") {
+		if !tal.constructed || tal.class != ClassContextSpecific || tal.tagNumber != *params.tagNumber {
+			return fmt.Errorf("tag [%d %d] is not the EXPLICIT tag %d", tal.class, tal.tagNumber, *params.tagNumber)
+		}
 		params.tagNumber = nil
 		params.explicitTag = false
 		return ParseField(v, bytes[talOff:], params)
+	}
+
+	// The identifier octets must be the ones the type calls for: primitive or constructed, and the
+	// context tag of the member (IMPLICIT tagging) when it has one, the universal tag of the type otherwise.
+	if constructed, want, ok := identifierOf(v, params); ok {
+		if tal.constructed != constructed {
+			return fmt.Errorf("tag [%d %d]: wrong primitive/constructed form for %s", tal.class, tal.tagNumber, fieldType)
+		}
+		if params.tagNumber != nil {
+			if tal.class != ClassContextSpecific || tal.tagNumber != *params.tagNumber {
+				return fmt.Errorf("tag [%d %d] does not match the member's tag %d", tal.class, tal.tagNumber, *params.tagNumber)
+			}
+		} else if tal.class != ClassUniversal || tal.tagNumber != want {
+			return fmt.Errorf("tag [%d %d] does not match the type %s", tal.class, tal.tagNumber, fieldType)
+		}
 	}
 
 	// We deal with the structures defined in this package first.
